@@ -1517,6 +1517,11 @@ class Exec:
 
     def st_Assert(self, st):
         c = as_bool(self.ev(st.test))
+        if self.exc_expected('AssertionError'):
+            # the contract lists AssertionError among what may escape: the failing case is a raising path
+            if not self.branch(c):
+                raise PyRaise('AssertionError', node=st)
+            return
         self.oblige('assert', c, label='assert@%d' % st.lineno)
         self.assume(c)
 
